@@ -294,12 +294,43 @@ func encCfg(hs []string) string {
 	return " cfgh=" + encBlankList(b)
 }
 
+// shortFs: the ammo file is opened through a file whose Read hands out at most `max` bytes per call (a legal io.Reader:
+// pipes, network file systems and throttled readers behave like this). What is delivered must not depend on it.
+type shortFs struct {
+	afero.Fs
+	max int
+}
+
+func (s shortFs) Open(name string) (afero.File, error) {
+	f, err := s.Fs.Open(name)
+	if err != nil {
+		return nil, err
+	}
+	return &shortFile{File: f, max: s.max}, nil
+}
+
+type shortFile struct {
+	afero.File
+	max int
+}
+
+func (f *shortFile) Read(p []byte) (int, error) {
+	if len(p) > f.max {
+		p = p[:f.max]
+	}
+	return f.File.Read(p)
+}
+
 // runProvider drains the real provider. unlimited: the provider runs with Limit = 0 (no limit) and exactly k requests are
 // taken before the run is cancelled (only for files on which no decoder error is expected).
-func runProvider(dec config.DecoderType, file []byte, k int, preload bool, headers []string, unlimited bool) string {
-	fs := afero.NewMemMapFs()
-	if err := afero.WriteFile(fs, "/ammo", file, 0o644); err != nil {
+func runProvider(dec config.DecoderType, file []byte, k int, preload bool, headers []string, unlimited bool, maxRead int) string {
+	mem := afero.NewMemMapFs()
+	if err := afero.WriteFile(mem, "/ammo", file, 0o644); err != nil {
 		panic(err)
+	}
+	var fs afero.Fs = mem
+	if maxRead > 0 {
+		fs = shortFs{Fs: mem, max: maxRead}
 	}
 	conf := config.Config{Decoder: dec, File: "/ammo", Limit: uint(k), Preload: preload, Headers: headers}
 	want := k + 4
@@ -437,6 +468,9 @@ func renderEntity(e entity, order []string, omit bool) string {
 	return "{" + strings.Join(fields, ",") + "}"
 }
 
+// jsonLeads: white space JSON permits before the first value (kv jx, low two bits)
+var jsonLeads = []string{"", "\n", " \n\t ", "\r\n\r\n"}
+
 func renderJSON(kv map[string]string) []byte {
 	es := parseEnts(kv["ents"])
 	ord, _ := strconv.Atoi(kv["ord"])
@@ -445,8 +479,12 @@ func renderJSON(kv map[string]string) []byte {
 	sep := jsonSeps[sepi%len(jsonSeps)]
 	omit := kv["omit"] == "1"
 	var objs []string
-	for _, e := range es {
+	jx, _ := strconv.Atoi(kv["jx"])
+	for i, e := range es {
 		o := renderEntity(e, order, omit)
+		if jx&4 != 0 && i%2 == 0 { // a field the decoder does not know, and `null` for an empty headers object
+			o = `{"comment":{"n":[1,2,{"uri":"/no"}],"host":null},` + strings.TrimPrefix(strings.Replace(o, `"headers":{}`, `"headers":null`, 1), "{")
+		}
 		if kv["mode"] == "pretty" || (kv["mode"] == "array" && sepi%2 == 1) {
 			var buf bytes.Buffer
 			if err := json.Indent(&buf, []byte(o), "", "  "); err != nil {
@@ -468,7 +506,10 @@ func renderJSON(kv map[string]string) []byte {
 	if kv["fnl"] == "1" {
 		out += "\n"
 	}
-	return []byte(out)
+	if jx&8 != 0 {
+		out += " \n\t\n"
+	}
+	return []byte(jsonLeads[jx&3] + out)
 }
 
 // ---------------------------------------------------------------- Run / Class
@@ -482,15 +523,16 @@ func c07Run(input string) string {
 	pre := kv["pre"] == "1"
 	cfg := parseCfg(kv["cfgh"])
 	unl := kv["lim0"] == "1"
+	rd, _ := strconv.Atoi(kv["rd"])
 	switch kv["fmt"] {
 	case "uri":
-		return runProvider(config.DecoderURI, unhx(kv["file"]), k, pre, cfg, unl)
+		return runProvider(config.DecoderURI, unhx(kv["file"]), k, pre, cfg, unl, rd)
 	case "uripost":
-		return runProvider(config.DecoderURIPost, unhx(kv["file"]), k, pre, cfg, unl)
+		return runProvider(config.DecoderURIPost, unhx(kv["file"]), k, pre, cfg, unl, rd)
 	case "raw":
-		return runProvider(config.DecoderRaw, unhx(kv["file"]), k, pre, cfg, unl)
+		return runProvider(config.DecoderRaw, unhx(kv["file"]), k, pre, cfg, unl, rd)
 	case "json":
-		return runProvider(config.DecoderJSONLine, renderJSON(kv), k, pre, cfg, unl)
+		return runProvider(config.DecoderJSONLine, renderJSON(kv), k, pre, cfg, unl, rd)
 	}
 	return "err=badinput n=0 reqs="
 }
@@ -510,6 +552,9 @@ func c07Class(input, obs string) string {
 	}
 	if kv["lim0"] == "1" {
 		c += "/nolimit"
+	}
+	if kv["rd"] != "" {
+		c += "/shortreads"
 	}
 	if hasLongLine(kv["file"]) {
 		c += "/longline"
@@ -767,8 +812,15 @@ func lim0(on bool) string {
 	return ""
 }
 
+// manyPasses: every sixth call of limitFor asks for four and a half passes instead of two and a half
+var limitCalls int
+
 func limitFor(nreq int) int {
+	limitCalls++
 	k := (5*nreq + 1) / 2
+	if limitCalls%6 == 0 && nreq <= 8 {
+		k = (9*nreq + 1) / 2
+	}
 	if k < 3 {
 		k = 3
 	}
@@ -842,7 +894,29 @@ var malformedFixed = map[string][]string{
 	"raw": {"", "\n\n", "x\n", "5\nGET", "-1 t\n", "0 t\n", "0 t", "5 t", " \n5"},
 }
 
+// white-space runes other than the ASCII ones at the edges of lines (strings.TrimSpace removes them too)
+var unicodeEdge = map[string][]string{
+	"uri":     {"/a t\u00a0\n/b\n", "\u0085\n/a\n", "\u2028/a x\n", "[A: b\u3000]\n/a\n", "[\u00a0A\u2003:\u1680b]\n/a\n", "/a\u00a0t\n", "\u202f\u205f\n/a\u2029"},
+	"uripost": {"1 /a t\u00a0\nx", "\u0085\n0 /a\n", "\u20281 /a x\ny\n", "[A: b\u3000]\n0 /a\n", "0 /a\u00a0t\n", "0\u00a0/a\n", "2 /a\n\u00a0\n0 /b\n"},
+	"raw":     {"16 t\u00a0\n" + enumFrame, "\u0085\n16\n" + enumFrame, "\u200116 t\n" + enumFrame + "\u3000\n", "16\u00a0t\n" + enumFrame},
+}
+
+var readSizes = []int{1, 1, 2, 3, 7, 64, 1000, 4095, 4096, 4097}
+
+// c07Gen: the streams of c07Streams; every third case additionally reads its file through short reads (token rd=<max bytes per Read>)
 func c07Gen(r *rand.Rand, tier string) []string {
+	out := c07Streams(r, tier)
+	r2 := rand.New(rand.NewSource(r.Int63()))
+	for i := range out {
+		if r2.Intn(3) == 0 && !strings.Contains(out[i], " rd=") {
+			out[i] += fmt.Sprintf(" rd=%d", readSizes[r2.Intn(len(readSizes))])
+		}
+	}
+	return out
+}
+
+func c07Streams(r *rand.Rand, tier string) []string {
+	limitCalls = 0
 	var out []string
 	formats := []string{"uri", "uripost", "raw"}
 	thorough := tier == "thorough"
@@ -897,6 +971,15 @@ func c07Gen(r *rand.Rand, tier string) []string {
 	for _, f := range formats {
 		for _, s := range malformedFixed[f] {
 			out = append(out, malformedLine(f, []byte(s), nil, 4, nil))
+		}
+	}
+	for _, f := range formats {
+		for i, s := range unicodeEdge[f] {
+			line := malformedLine(f, []byte(s), nil, 4, nil)
+			if i%2 == 1 {
+				line = strings.Replace(line, " pre=0 ", " pre=1 ", 1)
+			}
+			out = append(out, line)
 		}
 	}
 	// a malformed `headers` option fails NewProvider whatever the file holds
@@ -960,7 +1043,8 @@ func c07Gen(r *rand.Rand, tier string) []string {
 			body[j] = byte(r.Intn(256))
 		}
 		items := []item{{kind: 'r', a: []byte("/big"), b: []byte("big tag"), c: body}, {kind: 'r', a: []byte("/b"), c: []byte("x\n")}}
-		out = append(out, caseLine("uripost", items, layout{fnl: i%2 == 0}, i%2 == 1, nil))
+		// the first one is read one byte per Read call, the others through reads that do not divide the chunk size
+		out = append(out, caseLine("uripost", items, layout{fnl: i%2 == 0}, i%2 == 1, nil)+fmt.Sprintf(" rd=%d", []int{1, 4093, 65537, 3}[i%4]))
 		frame := append([]byte("POST /big HTTP/1.1\r\nHost: h\r\nContent-Length: "+strconv.Itoa(n)+"\r\n\r\n"), body...)
 		fitems := []item{{kind: 'f', b: []byte("big tag"), c: frame}, {kind: 'f', c: []byte("GET / HTTP/1.0\r\n\r\n")}}
 		out = append(out, caseLine("raw", fitems, layout{fnl: true}, i%2 == 0, nil))
@@ -1029,7 +1113,7 @@ func c07Gen(r *rand.Rand, tier string) []string {
 		}
 		mode := []string{"line", "pretty", "array"}[r.Intn(3)]
 		out = append(out, fmt.Sprintf("fmt=json k=%d pre=%d mode=%s sep=%d omit=%d ord=%d fnl=%d ents=%s",
-			limitFor(n), map[bool]int{true: 1, false: 0}[r.Intn(6) == 0], mode, r.Intn(len(jsonSeps)), r.Intn(2), r.Intn(3), r.Intn(2), encEnts(es))+encCfg(randCfg(r)))
+			limitFor(n), map[bool]int{true: 1, false: 0}[r.Intn(6) == 0], mode, r.Intn(len(jsonSeps)), r.Intn(2), r.Intn(3), r.Intn(2), encEnts(es))+fmt.Sprintf(" jx=%d", r.Intn(16))+encCfg(randCfg(r)))
 	}
 	return out
 }
@@ -1237,7 +1321,7 @@ func longStream(r *rand.Rand, thorough bool) []string {
 		es := []entity{{host: "h.x", method: "GET", uri: "/a", tag: "first"}, e, {host: "h.x", method: "", uri: "/b?c=d", tag: "last", body: "z"}}
 		mode := []string{"line", "pretty", "array"}[r.Intn(3)]
 		out = append(out, fmt.Sprintf("fmt=json k=%d pre=%d mode=%s sep=%d omit=%d ord=%d fnl=%d ents=%s",
-			7, r.Intn(2), mode, r.Intn(len(jsonSeps)), r.Intn(2), r.Intn(3), r.Intn(2), encEnts(es)))
+			7, r.Intn(2), mode, r.Intn(len(jsonSeps)), r.Intn(2), r.Intn(3), r.Intn(2), encEnts(es))+fmt.Sprintf(" jx=%d", r.Intn(16)))
 	}
 	return out
 }
@@ -1306,7 +1390,11 @@ func enumStream(thorough bool) []string {
 		}
 		out = append(out, s)
 	}
-	for i, s := range allStrings("/a \n\r[]:\t", nb) {
+	nbURI := nb
+	if thorough {
+		nbURI = nb + 1
+	}
+	for i, s := range allStrings("/a \n\r[]:\t", nbURI) {
 		add("uri", s, i)
 	}
 	for _, pfx := range []string{"", "1 /a t\n", "[a:b]\n"} {
@@ -1344,7 +1432,10 @@ func main() {
 		Workers: 8,
 		Timeout: 30 * time.Second,
 		Rule: "entry lists (header lines, requests with URIs incl. queries, binary/empty bodies, tags with spaces) rendered into uri/uripost/raw with " +
-			"layout flags {blank lines, leading blanks, padding, CRLF, final newline} (thorough: all 32 x sizes 1-6), http/json entity lists in line/pretty/array layouts, " +
-			"plus a malformed stream (fixed witnesses and byte mutations); the real NewProvider+Run+Acquire is drained for ceil(2.5 passes); non-trivial = at least one request or a decoder error",
+			"layout flags {blank lines, leading blanks, padding, CRLF, final newline} (thorough: all 32 x sizes 1-6), limits of 2.5 or 4.5 passes or no limit at all, streaming and preload, " +
+			"with and without a `headers` option; lines of 4 KiB to 140 KiB (target, tag, header key/value, padding, blank line; at and around 4096, 8192, ..., 65536, 131072) in every line format; " +
+			"files of hundreds to thousands of entries; http/json entity lists in line/pretty/array layouts with leading/trailing white space, unknown fields and very long values; " +
+			"a malformed stream (fixed witnesses, Unicode white space at line edges, byte mutations) and the exhaustive enumeration of all short byte strings / short line sequences; " +
+			"the real NewProvider+Run+Acquire is drained; non-trivial = at least one request or a decoder error",
 	})
 }
